@@ -125,6 +125,32 @@ def file_and_convert(ctx, b, label, rng):
                     e = impl.call(readers.read_formatted_basis_str, direct[1], rfmt)
                     if a[0] == 'ok' and e[0] == 'ok' and same_data(e[1], a[1]):
                         ctx.violation('convert.convert_formatted_basis_str', 'data:%s->%s' % (fmt, tgt), 'conversion %s -> %s carries other data than the direct export' % (fmt, tgt), replay)
+            # the same through files: the formats given explicitly or taken from the file names, in every combination
+            tgt = rng.choice([t for t in ('gaussian94', 'nwchem', 'turbomole') if t != fmt])
+            if tgt == 'turbomole' and not any('electron_shells' in el for el in b['elements'].values()):
+                continue
+            src = os.path.join(d, 'conv_in' + ext)
+            with open(src, 'w') as f:
+                f.write(text)
+            direct = impl.call(writers.write_formatted_basis_str, copy.deepcopy(b), tgt)
+            e = impl.call(readers.read_formatted_basis_str, direct[1], tgt) if direct[0] == 'ok' else direct
+            for in_f, out_f in ((None, None), (fmt, None), (None, tgt), (fmt, tgt)):
+                out = os.path.join(d, 'conv_out' + writers.write._writer_map[tgt]['extension'])
+                if os.path.exists(out):
+                    os.unlink(out)
+                c = impl.call(convert.convert_formatted_basis_file, src, out, in_f, out_f)
+                ctx.case((label, fmt, tgt, 'convert-file', in_f, out_f), True, 'convert-file')
+                rp = dict(replay, target=tgt, in_fmt=in_f, out_fmt=out_f)
+                if c[0] != 'ok' or e[0] != 'ok':
+                    if c[0] != direct[0]:
+                        ctx.violation('convert.convert_formatted_basis_file', 'outcome:%s->%s' % (fmt, tgt),
+                                      'file conversion %s -> %s (in_fmt=%s, out_fmt=%s): %s, direct export: %s' % (fmt, tgt, in_f, out_f, c[0], direct[0]), rp)
+                    continue
+                a = impl.call(readers.read_formatted_basis_str, open(out).read(), tgt)
+                if a[0] != 'ok' or same_data(e[1], a[1]):
+                    ctx.violation('convert.convert_formatted_basis_file', 'data:%s->%s' % (fmt, tgt),
+                                  'file conversion %s -> %s (in_fmt=%s, out_fmt=%s): the output file does not carry the data of the direct %s export'
+                                  % (fmt, tgt, in_f, out_f, tgt), rp)
     finally:
         import shutil
         shutil.rmtree(d, ignore_errors=True)
